@@ -515,14 +515,16 @@ fn prologue_first_response(w: &mut World, via_auth: bool) -> Result<(), Failure>
 
 impl Property for C02 {
     const ID: &'static str = "C02";
-    const RULE: &'static str = "server packets of all eleven types (any legal property subset, generated property order, duplicate user-property keys, boundary lengths, every legal reason code, short forms) encoded by the reference encoder and delivered through the client in the phase where a server may send them; read back only through public accessors. Non-trivial = >= 2 property/field values present, or a short form, or chunked delivery; distinct = distinct serialised case";
+    const RULE: &'static str = "server packets of all eleven types (any legal property subset, generated property order, duplicate user-property keys, boundary lengths, every legal reason code, short forms) encoded by the reference encoder and delivered through the client in the phase where a server may send them; read back only through public accessors. Non-trivial = >= 3 property/field values present, or a short form; distinct = distinct serialised case";
     type Case = Case;
 
     fn strategy(_tier: Tier) -> BoxedStrategy<Case> {
         (
             input(true),
             gen::form(),
-            prop_oneof![3 => Just(0u16), 1 => prop::sample::select(vec![1u16, 2, 3, 511, 512, 513])],
+            // one transport chunk per packet: how reads are cut is C03's quantifier, not C02's
+            // (packets larger than the receive buffer still span several reads)
+            Just(0u16),
         )
             .prop_map(|(input, form, chunk)| Case { input, form, chunk })
             .boxed()
